@@ -109,6 +109,11 @@ PropsOf(p) == IF Len(p) < 2 THEN <<>> ELSE PropsWalk(Drop(p, 2), p[2])
 Bcd(d) == 10 * (d \div 16) + Mod(d, 16)
 GroupOf(p) == Field(p[4], 0, 4)
 HumidityOf(p) == IF p[5] # 0 THEN p[5] ELSE None
+(* energy group (4): BCD fields; totals in hundredths of a kWh, power in tenths of a watt *)
+Energy(p) == [ total100 |-> 1000000 * Bcd(p[5]) + 10000 * Bcd(p[6]) + 100 * Bcd(p[7]) + Bcd(p[8]),
+               current100 |-> 1000000 * Bcd(p[13]) + 10000 * Bcd(p[14]) + 100 * Bcd(p[15]) + Bcd(p[16]),
+               power10 |-> 10000 * Bcd(p[17]) + 100 * Bcd(p[18]) + Bcd(p[19]) ]
+EnergyValid(p) == LET e == Energy(p) IN e.total100 # 0 \/ e.current100 # 0 \/ e.power10 # 0
 
 (* minimum body lengths (without check byte) below which a response is undecodable and must be skipped *)
 MinLen(p) ==
